@@ -998,6 +998,29 @@ impl AclEntry {
     }
 }
 
+/// Verification hooks (feature `verif`): expose the two private halves of the entry match and a
+/// way to build an entry whose subject / target list is non-null but empty (a state otherwise
+/// only reachable by decoding a stored entry).
+#[cfg(feature = "verif")]
+impl AclEntry {
+    pub fn verif_match_accessor(&self, accessor: &Accessor) -> bool {
+        self.match_accessor(accessor)
+    }
+
+    pub fn verif_match_access_desc(&self, req: &AccessReq, aux_acl_enabled: bool) -> bool {
+        self.match_access_desc(&req.object, aux_acl_enabled)
+    }
+
+    pub fn verif_set_empty_lists(&mut self, subjects: bool, targets: bool) {
+        if subjects {
+            self.subjects.reinit(Nullable::init_some(Vec::init()));
+        }
+        if targets {
+            self.targets.reinit(Nullable::init_some(Vec::init()));
+        }
+    }
+}
+
 #[cfg(test)]
 #[allow(clippy::bool_assert_comparison)]
 pub(crate) mod tests {
